@@ -88,7 +88,7 @@ func (h *harness) selfTest(phase string) *selfTestReport {
 		}
 		switch {
 		case r.Hang:
-			bad("%s: hang", name)
+			bad("%s: hang; goroutines: %s", name, runGoroutines(r.HangStack))
 		case r.Banner:
 			bad("%s: panic banner: %s %v", name, r.PanicMsg, r.Frames)
 		case r.Consumed != r.Msgs:
@@ -195,6 +195,20 @@ func (h *harness) selfTest(phase string) *selfTestReport {
 		check("C", c, want, 0, 0)
 	}
 	return rep
+}
+
+// runGoroutines keeps the goroutines of a dump that execute node code.
+func runGoroutines(dump string) string {
+	var keep []string
+	for _, blk := range strings.Split(dump, "\n\n") {
+		if strings.Contains(blk, "piotrnar/gocoin") {
+			if len(blk) > 1800 {
+				blk = blk[:1800]
+			}
+			keep = append(keep, blk)
+		}
+	}
+	return strings.Join(keep, "\n--\n")
 }
 
 func childMain(args []string) {
